@@ -413,15 +413,16 @@ impl CliRejects {
                 if fmt != Format::Gambit {
                     return Err("not-applicable");
                 }
-                // plain style so that the text is predictable; two leaves needed
-                let mut c = case.clone();
-                c.fancy = false;
+                // plain style so that the text is predictable, but with a large constant in half of
+                // the files: then ALL of player one's payoffs have one sign and are far from zero
                 let st = case.game.stats();
                 if st.leaves < 2 {
                     return Err("not-applicable");
                 }
-                let plain = String::from_utf8_lossy(&c.write().bytes).into_owned();
-                // perturb player two's payoff of one terminal far beyond the tolerance
+                let mut style = EfgStyle::plain();
+                style.constant_milli = *r.pick(&[0i64, 20_000, -20_000, 200_000]);
+                let mut rr = Rng::new(case.style_seed);
+                let plain = to_efg(&case.game, &mut rr, &style).text;
                 let lines: Vec<&str> = plain.lines().collect();
                 let tl: Vec<usize> = lines.iter().enumerate().filter(|(_, l)| l.starts_with("t ")).map(|(i, _)| i).collect();
                 let i = *r.pick(&tl);
@@ -429,10 +430,18 @@ impl CliRejects {
                 let a = l.rfind(", ").ok_or("not-applicable")?;
                 let b = l.rfind(" }").ok_or("not-applicable")?;
                 let two: f64 = l[a + 2..b].parse().map_err(|_| "not-applicable")?;
-                let bumped = format!("{}, {} }}", &l[..a], crate::cli::write::dec(crate::cli::write::milli(two + 2.0 * st.d() + 5.0)));
+                // the documented tolerance: the half-sums may spread over at most 0.1 % of the range
+                // of player one's payoffs, i.e. one leaf may be off by delta <= range / 500.
+                // Perturb either far beyond it or just beyond it (1.5 x).
+                let range = st.d();
+                let (delta, label) = if r.coin(0.5) { (2.0 * range + 5.0, "file_semantic_gambit_not_constant_sum") } else { (((range * 1000.0 * 3.0 / 1000.0).ceil() + 1.0) / 1000.0, "file_semantic_gambit_not_constant_sum_just_beyond_tolerance") };
+                if !(delta > range / 500.0 * 1.2) {
+                    return Err("not-applicable");
+                }
+                let bumped = format!("{}, {} }}", &l[..a], crate::cli::write::dec(crate::cli::write::milli(two + delta)));
                 let mut out: Vec<String> = lines.iter().map(|s| s.to_string()).collect();
                 out[i] = bumped;
-                Ok(vec![one((out.join("\n") + "\n").into_bytes(), "file_semantic_gambit_not_constant_sum", Some(vec!["#constant-sum"]))])
+                Ok(vec![one((out.join("\n") + "\n").into_bytes(), label, Some(vec!["#constant-sum"]))])
             }
             "gambit:payoff_huge" => {
                 if fmt != Format::Gambit {
